@@ -345,7 +345,11 @@ def rule_enc_utf8(P):
                     codec = inner.args[0].value if inner.args and isinstance(inner.args[0], ast.Constant) else ("utf-8" if not inner.args else None)
                     src[n.targets[0].id] = (n, codec, norm(W.receiver(inner)))
         if not src:
-            r.add(f, f.node, False, "no `<symbol>.encode('utf-8')` found", construct=f"{q}: UTF-8 encoder")
+            nested = [g for g in P.funcs.values() if g.outer is f]
+            if nested:
+                r.undecided(f, f.node, "the encoder call is not in the function body (moved into a helper?)", construct=f"{q}: UTF-8 encoder")
+            else:
+                r.add(f, f.node, False, "no `<symbol>.encode('utf-8')` found", construct=f"{q}: UTF-8 encoder")
             continue
         for name, (st, codec, sym) in src.items():
             ok = codec is not None and str(codec).lower().replace("_", "-") in ("utf-8", "utf8")
